@@ -5,7 +5,8 @@ machine model coq/theories/X86.v  ->  coq/gen/AsmProg.v.
 For every *_amd64.s file: one program (all TEXT blocks concatenated, labels and intra-file symbols resolved to
 instruction indices), in two variants: as assembled by default (the run-time CPU-feature tests inside
 `#ifndef hasAVX2` / `#ifndef hasPOPCNT` blocks are present) and as assembled for GOAMD64=v3 (those blocks are
-dropped).  Anything the translator does not understand is an error (exit 2): nothing is skipped silently.
+dropped — in the files that include "asm_amd64.h", the header that defines the two macros; a file that does not
+include it keeps its run-time tests under GOAMD64=v3 too, and its two variants are the same program).  Anything the translator does not understand is an error (exit 2): nothing is skipped silently.
 Plan-9 operand order: sources first, destination last; CMPx a, b sets the flags of a - b."""
 import sys, os, re, glob, argparse
 
@@ -113,16 +114,22 @@ def translate(lines, v3, fname):
     syms = {}
     block = None
     skipping = False
+    feature_macros = False   # hasAVX2 / hasPOPCNT are defined by "asm_amd64.h" (under GOAMD64_v3), and only there
     for ln, line in lines:
         if line.startswith("#"):
-            if line.startswith("#ifndef"):
-                if v3:
+            m = re.match(r'^#ifndef\s+(\w+)\s*$', line)
+            if m:
+                if m.group(1) not in ("hasAVX2", "hasPOPCNT"):
+                    raise Err("%s:%d: directive %s" % (fname, ln, line))
+                if v3 and feature_macros:
                     skipping = True
                 continue
             if line.startswith("#endif"):
                 skipping = False
                 continue
             if line.startswith("#include"):
+                if '"asm_amd64.h"' in line:
+                    feature_macros = True
                 continue
             raise Err("%s:%d: directive %s" % (fname, ln, line))
         if skipping:
@@ -273,9 +280,21 @@ def main():
                 line = raw.split("//")[0].strip()
                 if line:
                     lines.append((ln, line))
+            default_prog = None
             for v3 in (False, True):
                 prog, syms = translate(lines, v3, rel)
                 name = "prog_%s%s" % (base, "_v3" if v3 else "")
+                if not v3:
+                    default_prog = [ins for ins, _ in prog]
+                elif [ins for ins, _ in prog] == default_prog:
+                    # the file does not see the feature macros: GOAMD64=v3 assembles the same program
+                    o.append("(* %s assembled for GOAMD64=v3: the same %d instructions (the file does not include asm_amd64.h) *)" % (rel, len(prog)))
+                    o.append("Definition %s : list instr := prog_%s." % (name, base))
+                    for s_, idx in sorted(syms.items(), key=lambda kv: kv[1]):
+                        nm = re.sub(r'[^A-Za-z0-9_]', '', s_)
+                        o.append("Definition entry_%s_%s_v3 : nat := entry_%s_%s." % (base, nm, base, nm))
+                    o.append("")
+                    continue
                 o.append("(* %s%s: %d instructions *)" % (rel, " assembled with hasAVX2/hasPOPCNT defined (GOAMD64=v3)" if v3 else "", len(prog)))
                 o.append("Definition %s : list instr := [" % name)
                 for k, (ins, src) in enumerate(prog):
